@@ -471,134 +471,206 @@ func runC05(c *core.Ctx) {
 							c.Nontrivial()
 						}
 						c.Eval()
-						root := c05Root(st, sdl, val.V)
-						var res map[string]interface{}
-						pinfo := core.Safe(func() { res = root.ResolveString(q, "", nil) })
-						detail := map[string]interface{}{"declared": t.String(), "go_value": val.Name, "position": pos, "strategy": st.String(), "query": q}
-						attrs := map[string]string{"leaf": leaf, "wrapper": fmt.Sprint(w), "go": goKindClass(val.V), "strategy": st.String()}
-						if pinfo != nil {
-							detail["panic"] = pinfo.Value
-							c.Outcome("panic")
-							c.Violation("panic", map[string]string{"site": pinfo.Site, "class": pinfo.Class, "leaf": leaf}, detail)
-							continue
-						}
-						var buf bytes.Buffer
-						if err := ggql.WriteJSONValue(&buf, res, -1); err != nil {
-							detail["diff"] = err.Error()
-							c.Violation("invalid-json", attrs, detail)
-							continue
-						}
-						detail["response_json"] = buf.String()
-						dec := json.NewDecoder(bytes.NewReader(buf.Bytes()))
-						dec.UseNumber()
-						var dv interface{}
-						if err := dec.Decode(&dv); err != nil {
-							detail["diff"] = "response is not valid JSON: " + err.Error()
-							c.Outcome("invalid-json")
-							c.Violation("invalid-json", attrs, detail)
-							continue
-						}
-						// walk to the position
-						cur := dv.(map[string]interface{})["data"]
-						okWalk := true
-						for _, seg := range path {
-							switch ts := seg.(type) {
-							case string:
-								m, ok := cur.(map[string]interface{})
-								if !ok {
-									okWalk = false
-								} else {
-									cur = m[ts]
-								}
-							case int:
-								l, ok := cur.([]interface{})
-								if !ok || ts >= len(l) {
-									okWalk = false
-								} else {
-									cur = l[ts]
-								}
-							}
-							if !okWalk {
-								break
-							}
-						}
-						if !okWalk {
-							// data missing altogether (e.g. whole request failed): nothing leaked
-							c.Outcome("no-data-at-position")
-							continue
-						}
-						if s := shapeOK(t, cur); s != "" {
-							if strings.Contains(s, "enum leaf is") {
-								attrs["what"] = "enum-non-member-string"
-							}
-							detail["diff"] = s
-							c.Outcome("leaf-shape")
-							c.Violation("leaf-shape", attrs, detail)
-							continue
-						}
-						// clearly unrepresentable => null + error with that path (scalars in scalar positions, elements of one-element lists)
-						target, tv := cur, val.V
-						tt := t
-						mustNullPath := world.PathString(path)
-						applicable := true
-						for tt.K != world.TNamed {
-							if tt.K == world.TNonNull {
-								tt = tt.Of
-								continue
-							}
-							l, isL := tv.([]interface{})
-							if !isL || len(l) != 1 {
-								applicable = false
-								break
-							}
-							tv = l[0]
-							tt = tt.Of
-							if dl, ok := target.([]interface{}); ok && len(dl) == 1 {
-								target = dl[0]
-							} else if target != nil {
-								applicable = false
-								break
-							}
-						}
-						if applicable && unrepresentable(leaf, tv) {
-							c.Count("expect_unrepresentable")
-							if target != nil {
-								if f, isF := world.Canon(tv).(float64); isF && (leaf == "Int" || leaf == "Int64") && !math.IsNaN(f) && !math.IsInf(f, 0) {
-									if n, isN := target.(json.Number); isN && n.String() == fmt.Sprintf("%d", int64(f)) {
-										attrs["what"] = "fraction-truncated"
-									}
-								}
-								detail["diff"] = fmt.Sprintf("unrepresentable value leaked as %v", target)
-								c.Outcome("leaked")
-								c.Violation("leaf-shape", attrs, detail)
-								continue
-							}
-							found := false
-							if es, ok := res["errors"].([]interface{}); ok {
-								for _, e := range es {
-									if em, ok := e.(map[string]interface{}); ok {
-										p, _ := em["path"].([]interface{})
-										if strings.HasPrefix(world.PathString(p), mustNullPath) {
-											found = true
-										}
-									}
-								}
-							}
-							if !found {
-								detail["diff"] = "unrepresentable value became null without an error for " + mustNullPath
-								c.Outcome("missing-error")
-								c.Violation("missing-error", attrs, detail)
-								continue
-							}
-							c.Outcome("null+error")
-							continue
-						}
-						c.Outcome("well-typed")
-						c.Sample(func() interface{} { return detail })
+						c05One(c, c05Root(st, sdl, val.V), t, leaf, w, q, path, val, pos, st)
 					}
 				}
 			}
 		}
 	}
-	c.R.Bound = "complete product (9 leaves x 5 wrappers x value menu x 3 positions x 3 strategies)"
+	// ---- two list fields of DIFFERENT leaf types answered from one Go slice (every back end hands out the same value for
+	// every field): each list must be coerced into a list of its own, the two answers may not share anything
+	shared := []c05Val{{"[]interface{}{1,2}", []interface{}{1, 2}}, {"[]interface{}{12,7 as strings}", []interface{}{"12", "7"}}, {"[]interface{}{true,false}", []interface{}{true, false}},
+		{"[]interface{}{1.0,2.5}", []interface{}{1.0, 2.5}}, {"[]interface{}{RED}", []interface{}{"RED"}}, {"[]interface{}{rfc3339}", []interface{}{"2020-04-05T06:07:08Z"}}}
+	for li, la := range c05Leaves {
+		for lj, lb := range c05Leaves {
+			if li == lj {
+				continue
+			}
+			for _, w := range []int{2, 3} {
+				for _, mk := range shared {
+					for _, st := range strats {
+						idx++
+						if !c.OwnsIdx(idx) {
+							continue
+						}
+						c.Nontrivial()
+						// a fresh slice per case: the library may not change it, but if it does the next case must not inherit that
+						val := c05Val{mk.Name, append([]interface{}{}, mk.V.([]interface{})...)}
+						q := fmt.Sprintf("{ r%d_%d r%d_%d }", li, w, lj, w)
+						root := c05Root(st, sdl, val.V)
+						c.Eval()
+						c05One(c, root, c05Wrap(la, w), la, w, q, []interface{}{fmt.Sprintf("r%d_%d", li, w)}, val, "root, beside a "+lb+" list of the same Go slice", st)
+						root = c05Root(st, sdl, val.V)
+						c.Eval()
+						c05One(c, root, c05Wrap(lb, w), lb, w, q, []interface{}{fmt.Sprintf("r%d_%d", lj, w)}, val, "root, after a "+la+" list of the same Go slice", st)
+					}
+				}
+			}
+		}
+	}
+	// ---- leaf types met by a LATER load: the first load declares the extra scalars again ("scalar Time" in SDL is common), a
+	// second load adds fields of every leaf type; the scalar menu at those fields
+	late := "extend type Query {\n"
+	for li, l := range c05Leaves {
+		late += fmt.Sprintf("  late%d_0: %s\n  late%d_2: [%s]\n", li, l, li, l)
+	}
+	late += "}\n"
+	for li, leaf := range c05Leaves {
+		for _, w := range []int{0, 2} {
+			vals := c05Scalars()
+			if w == 2 {
+				vals = c05Lists(1)
+			}
+			for _, val := range vals {
+				for _, st := range strats {
+					idx++
+					if !c.OwnsIdx(idx) {
+						continue
+					}
+					c.Nontrivial()
+					c.Eval()
+					root := c05Root(st, "scalar Time\nscalar Int64\nscalar Float64\n"+sdl, val.V)
+					if err := root.ParseString(late); err != nil {
+						panic(core.EngineError{Msg: "C05 later load refused: " + err.Error()})
+					}
+					field := fmt.Sprintf("late%d_%d", li, w)
+					if st == world.FS {
+						if err := root.RegisterField("Query", field, "V"); err != nil {
+							panic(core.EngineError{Msg: err.Error()})
+						}
+					}
+					c05One(c, root, c05Wrap(leaf, w), leaf, w, "{ "+field+" }", []interface{}{field}, val, "root, field of a later load", st)
+				}
+			}
+		}
+	}
+	c.R.Bound = "complete product (9 leaves x 5 wrappers x value menu x 3 positions x 3 strategies); all ordered pairs of leaf types x 2 list wrappers x 6 shared Go slices; 9 leaves x {T, [T]} x value menu on fields added by a later load after the extra scalars were declared again"
+}
+
+// c05One resolves q on root and checks the value at path against the declared type t: JSON shape, and null + error for a
+// value the type cannot represent.
+func c05One(c *core.Ctx, root *ggql.Root, t *world.T, leaf string, w int, q string, path []interface{}, val c05Val, pos string, st world.Strategy) {
+	var res map[string]interface{}
+	pinfo := core.Safe(func() { res = root.ResolveString(q, "", nil) })
+	detail := map[string]interface{}{"declared": t.String(), "go_value": val.Name, "position": pos, "strategy": st.String(), "query": q}
+	attrs := map[string]string{"leaf": leaf, "wrapper": fmt.Sprint(w), "go": goKindClass(val.V), "strategy": st.String()}
+	if pinfo != nil {
+		detail["panic"] = pinfo.Value
+		c.Outcome("panic")
+		c.Violation("panic", map[string]string{"site": pinfo.Site, "class": pinfo.Class, "leaf": leaf}, detail)
+		return
+	}
+	var buf bytes.Buffer
+	if err := ggql.WriteJSONValue(&buf, res, -1); err != nil {
+		detail["diff"] = err.Error()
+		c.Violation("invalid-json", attrs, detail)
+		return
+	}
+	detail["response_json"] = buf.String()
+	dec := json.NewDecoder(bytes.NewReader(buf.Bytes()))
+	dec.UseNumber()
+	var dv interface{}
+	if err := dec.Decode(&dv); err != nil {
+		detail["diff"] = "response is not valid JSON: " + err.Error()
+		c.Outcome("invalid-json")
+		c.Violation("invalid-json", attrs, detail)
+		return
+	}
+	// walk to the position
+	cur := dv.(map[string]interface{})["data"]
+	okWalk := true
+	for _, seg := range path {
+		switch ts := seg.(type) {
+		case string:
+			m, ok := cur.(map[string]interface{})
+			if !ok {
+				okWalk = false
+			} else {
+				cur = m[ts]
+			}
+		case int:
+			l, ok := cur.([]interface{})
+			if !ok || ts >= len(l) {
+				okWalk = false
+			} else {
+				cur = l[ts]
+			}
+		}
+		if !okWalk {
+			break
+		}
+	}
+	if !okWalk {
+		// data missing altogether (e.g. whole request failed): nothing leaked
+		c.Outcome("no-data-at-position")
+		return
+	}
+	if s := shapeOK(t, cur); s != "" {
+		if strings.Contains(s, "enum leaf is") {
+			attrs["what"] = "enum-non-member-string"
+		}
+		detail["diff"] = s
+		c.Outcome("leaf-shape")
+		c.Violation("leaf-shape", attrs, detail)
+		return
+	}
+	// clearly unrepresentable => null + error with that path (scalars in scalar positions, elements of one-element lists)
+	target, tv := cur, val.V
+	tt := t
+	mustNullPath := world.PathString(path)
+	applicable := true
+	for tt.K != world.TNamed {
+		if tt.K == world.TNonNull {
+			tt = tt.Of
+			return
+		}
+		l, isL := tv.([]interface{})
+		if !isL || len(l) != 1 {
+			applicable = false
+			break
+		}
+		tv = l[0]
+		tt = tt.Of
+		if dl, ok := target.([]interface{}); ok && len(dl) == 1 {
+			target = dl[0]
+		} else if target != nil {
+			applicable = false
+			break
+		}
+	}
+	if applicable && unrepresentable(leaf, tv) {
+		c.Count("expect_unrepresentable")
+		if target != nil {
+			if f, isF := world.Canon(tv).(float64); isF && (leaf == "Int" || leaf == "Int64") && !math.IsNaN(f) && !math.IsInf(f, 0) {
+				if n, isN := target.(json.Number); isN && n.String() == fmt.Sprintf("%d", int64(f)) {
+					attrs["what"] = "fraction-truncated"
+				}
+			}
+			detail["diff"] = fmt.Sprintf("unrepresentable value leaked as %v", target)
+			c.Outcome("leaked")
+			c.Violation("leaf-shape", attrs, detail)
+			return
+		}
+		found := false
+		if es, ok := res["errors"].([]interface{}); ok {
+			for _, e := range es {
+				if em, ok := e.(map[string]interface{}); ok {
+					p, _ := em["path"].([]interface{})
+					if strings.HasPrefix(world.PathString(p), mustNullPath) {
+						found = true
+					}
+				}
+			}
+		}
+		if !found {
+			detail["diff"] = "unrepresentable value became null without an error for " + mustNullPath
+			c.Outcome("missing-error")
+			c.Violation("missing-error", attrs, detail)
+			return
+		}
+		c.Outcome("null+error")
+		return
+	}
+	c.Outcome("well-typed")
+	c.Sample(func() interface{} { return detail })
 }
